@@ -60,6 +60,13 @@ func newDriver(tier string) *driver {
 	}
 	d.distr = authtypes.NewModuleAddress(distrtypes.ModuleName)
 	ctx := w.Ctx()
+	// the module accounts are recorded with the permissions every exported genesis / long-running chain
+	// carries for them (the stored record, not the binary's table, is what HasPermission reads)
+	for n, perms := range map[string][]string{stakingtypes.BondedPoolName: {authtypes.Burner, authtypes.Staking},
+		stakingtypes.NotBondedPoolName: {authtypes.Burner, authtypes.Staking}, govtypes.ModuleName: {authtypes.Burner}} {
+		acc := w.App.AccountKeeper.GetModuleAccount(ctx, n)
+		w.App.AccountKeeper.SetModuleAccount(ctx, authtypes.NewModuleAccount(authtypes.NewBaseAccount(acc.GetAddress(), nil, acc.GetAccountNumber(), acc.GetSequence()), n, perms...))
+	}
 	// stake configuration: A1 bonded with both validators, an unbonding entry and a redelegation
 	must := func(msg sdk.Msg) {
 		if _, err := w.RunMsg(ctx, msg); err != nil {
@@ -205,6 +212,25 @@ func (d *driver) ops(w *world.World, depth int, path []string) []engine.Op {
 	msgOp("redelegate(A1:V1>V2)", func() sdk.Msg {
 		return stakingtypes.NewMsgBeginRedelegate(A1, w.ValAddr[0], w.ValAddr[1], sdk.NewCoin(world.Denom, e18(1)))
 	})
+	// bank send restrictions concern user transfers only: they must not turn the redirect into a burn
+	add("sendDisabled(aISLM)", func(p []string, res *engine.Result) string {
+		if !w.App.BankKeeper.IsSendEnabledDenom(w.Ctx(), world.Denom) {
+			return "skip"
+		}
+		w.App.BankKeeper.SetSendEnabled(w.Ctx(), world.Denom, false)
+		return "ok"
+	})
+	add("sendDisabled(default)", func(p []string, res *engine.Result) string {
+		bp := w.App.BankKeeper.GetParams(w.Ctx())
+		if !bp.DefaultSendEnabled {
+			return "skip"
+		}
+		bp.DefaultSendEnabled = false
+		if err := w.App.BankKeeper.SetParams(w.Ctx(), bp); err != nil {
+			panic(err)
+		}
+		return "ok"
+	})
 	proposal := func(name string, deposit sdk.Coins, vote *govv1.VoteOption, blocks int, source string) {
 		add(name, func(p []string, res *engine.Result) string {
 			m, err := govv1.NewMsgSubmitProposal(nil, deposit, A2.String(), "ipfs://verif", name, name)
@@ -269,10 +295,11 @@ func Run(tier string) int {
 	}
 	return engine.Finish(res, engine.Meta{
 		Property: Prop, Tier: tier, Level: "model_checking", Start: start,
-		Rule:   "all sequences <= depth over 10 operations (double-sign evidence per validator with an early infraction height so that unbonding and redelegating stake is slashed too, 7-block downtime window, delegate / undelegate / redelegate, vetoed / no-quorum / under-funded proposal with a two-denomination deposit, plain block) from a fixture holding bonded, unbonding and redelegating stake; conservation oracle around every virtual block boundary; non-trivial = boundary at which coins were taken, distinct by (source, amount)",
+		Rule:   "all sequences <= depth over 12 operations (bank send-enabled switched off for the native denomination / by default, double-sign evidence per validator with an early infraction height so that unbonding and redelegating stake is slashed too, 7-block downtime window, delegate / undelegate / redelegate, vetoed / no-quorum / under-funded proposal with a two-denomination deposit, plain block) from a fixture holding bonded, unbonding and redelegating stake; conservation oracle around every virtual block boundary; non-trivial = boundary at which coins were taken, distinct by (source, amount)",
 		Bounds: map[string]any{"depth": bounds(tier)},
 		Assumptions: []string{
-			"coinomics off, community tax 0, zero fees: the community pool has no other inflow",
+			"coinomics off, zero fees: the community pool has no other inflow",
+			"module accounts of gov and the staking pools stored with their historic permissions (burner[, staking]), as in any exported genesis",
 			"'burned' is computed by conservation (what left the staking pools and the gov account minus what accounts gained), not from the implementation's own figures",
 			"virtual block boundary (real EndBlock/BeginBlock, no IAVL commit)",
 		},
